@@ -2,6 +2,8 @@ import CotengraVerif.Driver.Util
 import CotengraVerif.Model.Path
 import CotengraVerif.Model.Processor
 import CotengraVerif.Model.Partition
+import CotengraVerif.Model.BestSoFar
+import CotengraVerif.Model.ContractNodes
 
 namespace Cotengra.Driver.C05
 open Lean Cotengra Cotengra.Driver Cotengra.Path
@@ -101,9 +103,78 @@ def agglomOp : Handler := fun j => do
   | none => pure (jObj [("result", jStr "no-termination")])
   | some k => pure (jObj [("result", jStr "ok"), ("left", jNat k)])
 
+def foundOf (j : Json) : Except String BestSoFar.Found := do
+  pure ⟨← natListList (← field j "path"), ← natOf (← field j "flops")⟩
+
+def jOptPath : Option Path → Json
+  | none => Json.null
+  | some p => jNatss p
+
+def jOptNat : Option Nat → Json
+  | none => Json.null
+  | some n => jNat n
+
+/-- op `c05.best_so_far`: the answers (and, for the shared instance, the states after every call)
+    of a preset binding over a sequence of inner results -/
+def bestSoFarOp : Handler := fun j => do
+  let qs ← (← arrOf (← field j "found")).mapM foundOf
+  let shared ← (fieldD j "shared" (jBool true)).getBool?
+  let b : BestSoFar.Binding := if shared then .sharedInstance else .freshPerCall
+  let states := if shared then BestSoFar.sharedStates BestSoFar.init qs else []
+  pure (jObj [("answers", jArr ((BestSoFar.answers b qs).map jOptPath)),
+              ("states", jArr (states.map fun s =>
+                jObj [("best", jOptPath s.bestPath), ("flops", jOptNat s.bestFlops)]))])
+
+/-- the inner finder as a table: sorted inputs beneath the nodes ↦ the linear path it returned -/
+def innerOf (table : List (List Nat × Path)) : Nat → List BT → Path :=
+  fun _ xs => (table.lookup (sortNat ((xs.map BT.leaves).flatten))).getD []
+
+def innerEntry (j : Json) : Except String (List Nat × Path) := do
+  match ← arrOf j with
+  | [k, p] => pure (← natList k, ← natListList p)
+  | _ => throw "expected [key, path]"
+
+/-- op `c05.from_path_kary`: `from_path` on a linear path with steps of any arity, the answers of the
+    inner finder given per node set -/
+def fromPathKaryOp : Handler := fun j => do
+  let n ← natOf (← field j "n")
+  let p ← natListList (← field j "path")
+  let ac ← (fieldD j "autocomplete" (jBool true)).getBool?
+  let table ← (← arrOf (← field j "inner")).mapM innerEntry
+  match fromLinearK (innerOf table) n p ac with
+  | none => pure (jObj [("result", jStr "error")])
+  | some ts => pure (jObj [("result", jStr "ok"), ("trees", jArr (ts.map jTree))])
+
+/-- op `c05.random_path`: `RandomOptimizer.__call__` for the given draws -/
+def randomPathOp : Handler := fun j => do
+  let n ← natOf (← field j "n")
+  let draws ← pairList (← field j "draws")
+  pure (jObj [("path", jNatss (randomPath draws)), ("draws_ok", jBool (drawsOK n draws)),
+              ("complete", jBool (checkLinear n (randomPath draws)))])
+
+/-- op `c05.ssa_to_linear` -/
+def ssaToLinearOp : Handler := fun j => do
+  let n ← natOf (← field j "n")
+  let p ← natListList (← field j "path")
+  match ssaToLinear n p with
+  | none => pure (jObj [("result", jStr "indexerror")])
+  | some q => pure (jObj [("result", jStr "ok"), ("path", jNatss q)])
+
+/-- op `c05.divide_step`: one iteration of `while tree.childless` for the recorded membership -/
+def divideStepOp : Handler := fun j => do
+  let cutoff ← natOf (← field j "cutoff")
+  let c ← natListList (← field j "childless")
+  let m ← natList (fieldD j "membership" (jNats []))
+  let k ← natOf (fieldD j "pick" (jNat 0))
+  match Partition.divideStep cutoff ⟨fun _ => m, fun _ => k⟩ c with
+  | none => pure (jObj [("result", jStr "ended")])
+  | some c' => pure (jObj [("result", jStr "ok"), ("childless", jNatss c')])
+
 def handlers : List (String × Handler) :=
   [("c05.check_linear", checkLinearOp), ("c05.check_ssa", checkSSAOp), ("c05.check_tree", checkTreeOp),
    ("c05.from_path", fromPathOp), ("c05.processor", processorOp), ("c05.separate", separateOp),
-   ("c05.kahypar_shortcuts", kahyparOp), ("c05.agglom", agglomOp)]
+   ("c05.kahypar_shortcuts", kahyparOp), ("c05.agglom", agglomOp), ("c05.best_so_far", bestSoFarOp),
+   ("c05.from_path_kary", fromPathKaryOp), ("c05.random_path", randomPathOp),
+   ("c05.ssa_to_linear", ssaToLinearOp), ("c05.divide_step", divideStepOp)]
 
 end Cotengra.Driver.C05
